@@ -18,6 +18,10 @@ macro_rules! cfg_huge {
 }
 
 fn main() {
+    vengine::on_worker_stack(real_main);
+}
+
+fn real_main() {
     let mut run = Run::from_args("C07", "c07");
     vcore::core_configs!(cfg, run);
     vcore::huge_configs!(cfg_huge, run);
